@@ -493,7 +493,11 @@ def agree(run, fx, rule='PLANEROUTE'):
         bmp_sets = [sg for sg in segsets(2, 0, 6)]
         # the format only requires that the last segment END at 0xFFFF: it may carry real mappings
         bmp_sets[7:7] = [[(2, 3), (0xFFFC, 0xFFFF)], [(0xFFFA, 0xFFFF)]]
+        # segments around the surrogate block: nothing special about D800..DFFF in a cmap
+        bmp_sets[14:14] = [[(0xD7FE, 0xD801), (0xE000, 0xE001)], [(0xDFFE, 0xDFFF), (0xE000, 0xE002)]]
         smp_sets = [[]] + [sg for sg in segsets(1, 0xFFFE, 0x10002)] + [[(0x10000, 0x10001), (0x10003, 0x10004)]]
+        # a format 12 subtable that also lists BMP ranges (most do): the cached fill must step over ALL of them
+        smp_sets.insert(2, [(0x2, 0x2), (0x4, 0x4), (0x6, 0x6), (0x10000, 0x10001)])
         for k, bmp in enumerate(bmp_sets):
             for smp in (smp_sets if k % 7 == 0 else smp_sets[:2]):
                 t4 = mk4([(a, b, (10 - a) if b != 0xFFFF else (0x10000 + 30 - a)) for a, b in bmp])         # glyph = code point + 10 - start (30 - start in a real last segment)
@@ -503,6 +507,8 @@ def agree(run, fx, rule='PLANEROUTE'):
                 cc[CC + 'm_blocks'] = O.It(blocks, 0)
                 cc[CC + 'm_isBmpOnly'] = t12 is None
                 dc = O.Rec()
+                for f_ in (fx.raw['records'].get('graphite2::DirectCmap') or {}).get('fields', []):
+                    dc[DC + f_['n']] = O.Ptr(None) if '*' in (f_.get('t') or '') else 0
                 dc[DC + '_cmap'] = O.Rec()
                 dc[DC + '_bmp'] = O.Ptr(t4)
                 dc[DC + '_smp'] = O.Ptr(t12) if t12 is not None else O.Ptr(None)
@@ -525,8 +531,8 @@ def agree(run, fx, rule='PLANEROUTE'):
                     it.MAX_STEPS = 150000
                     it.call(fx.one('graphite2::CachedCmap::CachedCmap'), cc, [O.Rec()])
                     nat = natc
-                    probe = sorted(set(range(0, 9)) | {0xFFF9, 0xFFFA, 0xFFFB, 0xFFFC, 0xFFFD, 0xFFFE, 0xFFFF, 0x10000, 0x10001, 0x10002, 0x10003, 0x10004, 0x10005, 0x10FFFF})
-                    for c_ in probe:
+                    probe = sorted(set(range(0, 9)) | {0xD7FD, 0xD7FE, 0xD7FF, 0xD800, 0xD801, 0xD802, 0xDFFD, 0xDFFE, 0xDFFF, 0xE000, 0xE001, 0xE002, 0xE003} | {0xFFF9, 0xFFFA, 0xFFFB, 0xFFFC, 0xFFFD, 0xFFFE, 0xFFFF, 0x10000, 0x10001, 0x10002, 0x10003, 0x10004, 0x10005, 0x10FFFF})
+                    for c_ in probe + probe[::-1]:
                         a_ = O.Interp(fx, natives=nat).call(cop, cc, [c_])
                         b_ = O.Interp(fx, natives=nat).call(dop, dc, [c_])
                         cases += 1
@@ -726,6 +732,7 @@ def run(run):
     fallback(run, fx)
     lookupfirst(run, fx)
     segsearch(run, fx)
+    pseudostore(run, fx)
     inst_ = 'format 4 lookup computes the glyph the table gives (interpreted on concrete small tables)'
     f4_ = fx.one('graphite2::TtfUtil::CmapSubtable4Lookup')
     try:
@@ -739,6 +746,31 @@ def run(run):
     agree(run, fx)
     cmapbound(run, fx)
     narrowread(run, fx)
+
+
+def pseudostore(run, fx):
+    """FALLBACK: "falling back to the Silf pseudo-glyph map" -- the map in memory is the map in the font: the only stores into
+    Pseudo::uid / Pseudo::gid are the two table reads of Silf::readGraphite; nothing rewrites an entry afterwards (a "hardening" that
+    zeroes entries it dislikes changes what an unmapped character falls back to)."""
+    from .util import field_writes
+    fw = field_writes(fx)
+    n, bad = 0, None
+    for F_ in ('graphite2::Pseudo::uid', 'graphite2::Pseudo::gid'):
+        for fn, e, kind in fw.get(F_, []):
+            n += 1
+            rhs = fn.strip_all_casts(fn.N(e['c'][1])) if e['k'] == 'BinaryOperator' and e['op'] == '=' else None
+            ok = rhs is not None and rhs['k'] == 'CallExpr' and (rhs.get('fq') or '').split('<')[0] in ('be::read', 'be::peek') and fn.q == 'graphite2::Silf::readGraphite'
+            if not ok and bad is None:
+                bad = (fn, e, F_)
+    inst = 'the pseudo-glyph map holds what the table says'
+    if n < 2:
+        run.broken('FALLBACK', inst, 'the two stores of Silf::readGraphite into Pseudo::uid / gid were not found')
+    elif bad:
+        fn, e, F_ = bad
+        run.violated('FALLBACK', inst, fn.loc(e), '%s stores into %s other than the value read from the Silf table (`%s`): the character that pseudo-glyph stands for no longer falls back '
+                     'to the glyph the font names' % (fn.q, F_.split('::')[-1], fn.render(e)[:80]))
+    else:
+        run.held('FALLBACK', inst, '', '%d stores, all `= be::read<..>(p)` in Silf::readGraphite' % n)
 
 
 def glyph4(run, fx, rule='PLANEROUTE'):
